@@ -341,30 +341,41 @@ def run(chk, pid, tier, seed, out, ev, known):
                 if len(ev['samples']) < 6:
                     ev['samples'].append(describe(case)[:600])
             for s, d in j.viol:
-                if s not in cands:
-                    cands[s] = (case, d)
+                # several cases per signature: the first one met may be a lucky coincidence that does not reproduce
+                if len(cands.setdefault(s, [])) < 6:
+                    cands[s].append((case, d))
     ev['distinct_nontrivial'] = len(nt_hashes)
 
     def is_known(sig):
         return known_entry(pid, known, sig) is not None
 
     def work(item):
-        sig, (case, detail) = item
+        sig, lst = item
+        case, detail = lst[0]
         if is_known(sig):
             # a recorded finding met again by chance: no shrinking, no confirmation needed
             return sig, case, detail, case, 3, detail
-        ok1, _ = confirm(ctx, pid, case, sig, times=1)
-        if ok1 == 0:
-            # does not even reproduce once: no point in shrinking (load or scheduling dependent)
-            return sig, case, detail, case, 0, detail
-        log('[%s] candidate %s: shrinking' % (pid, sig))
-        small, nruns = shrink(ctx, pid, case, sig)
-        ok, d2 = confirm(ctx, pid, small, sig)
-        if ok < 3 and small is not case:
-            ok0, d0 = confirm(ctx, pid, case, sig)
-            if ok0 >= 3:
-                small, ok, d2 = case, ok0, d0
-        return sig, case, detail, small, ok, d2
+        best = (sig, case, detail, case, 0, detail)
+        t_sig = time.time()
+        for case, detail in lst:
+            if time.time() - t_sig > 150:
+                break
+            ok1, _ = confirm(ctx, pid, case, sig, times=2)
+            if ok1 < 2:
+                # does not reproduce twice in a row: no point in shrinking (load or scheduling dependent); try the next case
+                continue
+            log('[%s] candidate %s: shrinking' % (pid, sig))
+            small, nruns = shrink(ctx, pid, case, sig)
+            ok, d2 = confirm(ctx, pid, small, sig)
+            if ok < 3 and small is not case:
+                ok0, d0 = confirm(ctx, pid, case, sig)
+                if ok0 >= 3:
+                    small, ok, d2 = case, ok0, d0
+            if ok > best[4]:
+                best = (sig, case, detail, small, ok, d2)
+            if ok >= 3:
+                break
+        return best
 
     with ThreadPoolExecutor(max(1, min(6, len(cands)))) as ex:
         results = list(ex.map(work, list(cands.items())))
